@@ -34,7 +34,7 @@ var truthLeaves = map[string]tvLeaf{
 	"0": {false, "number"}, "(0*-1)": {false, "number"}, "0.0": {false, "number"}, "0e3": {false, "number"}, "(0/0)": {false, "number"},
 	"(1/0)": {true, "number"}, "(-1/0)": {true, "number"}, "1": {true, "number"}, "(-1)": {true, "number"}, "0.5": {true, "number"}, "1.50": {true, "number"}, "1e-30": {true, "number"}, "izero": {false, "number"}, "fzero": {false, "number"}, "fnan": {false, "number"},
 	"''": {false, "string"}, "es": {false, "string"}, "'0'": {true, "string"}, "' '": {true, "string"}, "'a'": {true, "string"}, "'false'": {true, "string"}, "'x'": {true, "string"},
-	"[]": {true, "other"}, "[0]": {true, "other"}, "[1]": {true, "other"}, "m": {true, "other"}, "em": {true, "other"}, "st": {true, "other"}, "t": {true, "other"}, "len": {true, "other"}, "fn0": {true, "other"}, "earr": {true, "other"},
+	"[]": {true, "other"}, "[0]": {true, "other"}, "[1]": {true, "other"}, "m": {true, "other"}, "em": {true, "other"}, "st": {true, "other"}, "t": {true, "other"}, "len": {true, "other"}, "fn0": {true, "other"}, "earr": {true, "other"}, "t2": {true, "other"}, "t0": {true, "other"},
 }
 
 func truthSpec() map[string]spec.V {
@@ -45,6 +45,8 @@ func truthSpec() map[string]spec.V {
 		"earr": {K: "slice"},
 		"st":   {K: "struct", M: map[string]spec.V{"Name": {K: "string", S: "Ann"}}},
 		"t":    {K: "time", S: "2024-02-29T12:34:56Z"},
+		"t2":   {K: "time", S: "1999-12-31T23:59:59Z", Z: "Asia/Shanghai"},
+		"t0":   {K: "time", S: "1970-01-01T00:00:00Z"},
 		"fn0":  {K: "func", F: &spec.Fn{Name: "fn0", Ret: "int", RetS: "7"}},
 		"rec":  {K: "func", F: &spec.Fn{Name: "rec", Params: []string{"int"}, Ret: "nil"}},
 	}
@@ -327,7 +329,7 @@ func sortedLeaves() []string {
 	return out
 }
 
-var truthBranches = []string{"1.50", "'x'", "[1]", "null", "m", "0", "''", "false", "true", "'0'", "(0*-1)", "(0/0)"}
+var truthBranches = []string{"1.50", "'x'", "[1]", "null", "m", "0", "''", "false", "true", "'0'", "(0*-1)", "(0/0)", "t", "t2", "st", "fn0", "earr", "np"}
 
 // TestC06Exhaustive: each operator x all condition values x a block of branch values.
 func TestC06Exhaustive(t *testing.T) {
